@@ -126,6 +126,17 @@ chk("C15",
     "content normal form (list = tuple = array element-wise) as content identity. Histories are sampled.",
     "recorded traces of the real settings objects validated by TLC against a TLA+ heap specification", "DESIGN.md#c15")
 
+chk("C09",
+    "Design level: spec/Session.tla (recordings with content versions, the FFT length stored in the settings object as state, results "
+    "keyed by recordings/versions/length): TLC proves Repeatable, InputsUntouched, ResultsImmutable, NeverTruncates for the "
+    "property-level design and finds the counterexample history for today's FFT-length ratchet (negative configuration). Code level: "
+    "seeded random sessions over every processing method x tapers x fft settings (process, exact repeats, interleaved calls incl. a "
+    "recording needing 65 536 points, in-place modification of recordings and settings) are logged as heap snapshots (storage identity + "
+    "SHA-256 content of every recording, settings object, result) and every step is validated by TLC against TraceSessionHeap.",
+    "Trusted: TLC; spec/Heap.tla, Session.tla, TraceSessionHeap.tla; digests/alias classes as in C18. Two repeat mismatches caused by "
+    "the stored FFT length are listed as open known findings (n=None, interleaved ratchet). Sessions are sampled.",
+    "TLA+ design model checked with TLC (positive + negative config); recorded sessions of the real API validated by TLC (trace validation)", "DESIGN.md#c09")
+
 def main():
     man = dict(
         version=1,
